@@ -423,7 +423,7 @@ def main(argv):
     harness_ok = ok
 
     # 2. proof obligations
-    ok, out = build_lean(["specgen"] + (["specexplore"] if spec.get("lin") else []) + spec.get("lean_targets", []))
+    ok, out = build_lean(["specgen", "specfollow"] + (["specexplore"] if spec.get("lin") else []) + spec.get("lean_targets", []))
     if not ok:
         broken.append({"what": "lake build " + " ".join(spec.get("lean_targets", [])), "detail": out[-3000:]})
     theorems, axioms_seen, n_oblig, n_dis = {}, set(), 0, 0
@@ -580,6 +580,8 @@ def main(argv):
                  "rule": "programs are generated from the property's profile (seeded), each run under one seeded schedule of the controlled scheduler on the real crate; non-trivial = the run contains a signal hand-off (st/cas on a signal) or a park; distinct = distinct sequence of lock/unlock/st/cas/park/unpark/wake/ret events"},
         "linearizability": {"programs": stats.get("lin_programs", 0), "model_outcomes_enumerated": stats.get("lin_outcomes", 0),
                             "explorations_cut_off": stats.get("lin_incomplete", 0)},
+        "channel_acceptor": {"runs_accepted": stats.get("follow_runs", 0), "model_steps": stats.get("follow_steps", 0), "calls_compared": stats.get("follow_calls", 0),
+                             "rule": "each scheduled run is replayed through Spec.step (Lean exe specfollow): critical sections in lock order, final stores as finalize steps, every call's result must be the model's"},
         "protocol_acceptor": {"mutex_steps_accepted": stats.get("proto_mutex_steps", 0), "signal_lifetimes_accepted": stats.get("proto_signals", 0),
                               "signal_steps_accepted": stats.get("proto_signal_steps", 0),
                               "rule": "each scheduled run's lock events and per-signal events are replayed through MutexM.step / SigM.step (Lean exe protocheck, instantiated with the extracted orderings and constants); the run must be an execution of the models that never reaches racy/dangling"},
